@@ -33,6 +33,51 @@ static void seq_case(vh::Rng& g, int it)
     delete A;
 }
 
+// sequential block formats (BCOO / BSR / BSC), built directly from block lists; every product; the expected result is the
+// product with the scalar expansion of the blocks.  fmt codes 3, 4, 5
+static void seq_block_case(vh::Rng& g, int it)
+{
+    int br = g.range(1, 3), bc = g.coin(1, 2) ? br : g.range(1, 3);
+    int R = g.range(0, 4), C = g.coin(1, 3) ? R : g.range(0, 4);
+    int nb = (R == 0 || C == 0 || g.coin(1, 8)) ? 0 : g.range(1, 2 * (R + C) + 1);
+    std::vector<int> rr, cc; std::vector<std::vector<double>> vv;
+    for (int k = 0; k < nb; k++) { rr.push_back(g.below(R)); cc.push_back(g.below(C)); std::vector<double> blk(br * bc); for (auto& v : blk) v = g.coin(1, 4) ? 0 : g.range(-3, 3); vv.push_back(blk); }
+    vh::Trip t; t.n_rows = R * br; t.n_cols = C * bc;
+    for (int k = 0; k < nb; k++) for (int i = 0; i < br; i++) for (int j = 0; j < bc; j++) { t.r.push_back(rr[k] * br + i); t.c.push_back(cc[k] * bc + j); t.v.push_back(vv[k][i * bc + j]); }
+    int fmt = g.below(3);
+    Matrix* A;
+    if (fmt == 0) { BCOOMatrix* M = new BCOOMatrix(R, C, br, bc); for (int k = 0; k < nb; k++) M->add_value(rr[k], cc[k], vv[k].data()); A = M; }
+    else if (fmt == 1) {
+        BSRMatrix* M = new BSRMatrix(R, C, br, bc); M->idx1.assign(R + 1, 0); M->idx2.clear();
+        for (int i = 0; i < R; i++) { for (int k = 0; k < nb; k++) if (rr[k] == i) { M->idx2.push_back(cc[k]); M->block_vals.push_back(M->copy_val(vv[k].data())); } M->idx1[i + 1] = (int)M->idx2.size(); }
+        M->nnz = (int)M->idx2.size(); A = M;
+    } else {
+        BSCMatrix* M = new BSCMatrix(R, C, br, bc); M->idx1.assign(C + 1, 0); M->idx2.clear();
+        for (int j = 0; j < C; j++) { for (int k = 0; k < nb; k++) if (cc[k] == j) { M->idx2.push_back(rr[k]); M->block_vals.push_back(M->copy_val(vv[k].data())); } M->idx1[j + 1] = (int)M->idx2.size(); }
+        M->nnz = (int)M->idx2.size(); A = M;
+    }
+    static const char* BN[] = { "BCOO", "BSR", "BSC" };
+    const char* ops[] = { "mult", "mult_append", "mult_T", "mult_append_T", "mult_append_neg", "mult_append_neg_T", "residual" };
+    int n_rows = t.n_rows, n_cols = t.n_cols;
+    for (int k = 0; k < 7; k++) {
+        bool T = (k == 2 || k == 3 || k == 5);
+        int nx = T ? n_rows : n_cols, nbv = T ? n_cols : n_rows;
+        std::vector<double> x = vh::rand_vec(g, nx), b = vh::rand_vec(g, nbv);
+        Vector vx(nx), vb(nbv), vr(nbv);
+        for (int i = 0; i < nx; i++) vx.values[i] = x[i];
+        for (int i = 0; i < nbv; i++) { vb.values[i] = b[i]; vr.values[i] = 77; }
+        char buf[64]; snprintf(buf, 64, "seq/%s/%s/b%dx%d", ops[k], BN[fmt], br, bc); E.about(buf);
+        if (k == 0) A->mult(vx, vb); else if (k == 1) A->mult_append(vx, vb); else if (k == 2) A->mult_T(vx, vb);
+        else if (k == 3) A->mult_append_T(vx, vb); else if (k == 4) A->mult_append_neg(vx, vb);
+        else if (k == 5) A->mult_append_neg_T(vx, vb); else A->residual(vx, vb, vr);
+        if (!E.want()) continue;
+        std::vector<double> out(nbv); for (int i = 0; i < nbv; i++) out[i] = (k == 6 ? vr.values[i] : vb.values[i]);
+        vh::Case c("C02", ops[k]); c.i(3 + fmt).i(0).i(n_rows).i(n_cols).vec(vh::trip_ll(t)).divec(x).divec(b).divec(out).i(0);
+        c.write(E.out);
+    }
+    delete A;
+}
+
 static void par_case(vh::Rng& g, int it)
 {
     int cap = 2 + std::min(14, it / 6);
@@ -76,6 +121,7 @@ int main(int argc, char** argv)
     bool seq = argc > 2 && !strcmp(argv[2], "seq");
     int n = seq ? (E.thorough ? 600 : 120) : (E.thorough ? 240 : 60);
     for (int it = 0; it < n; it++) { if (seq) seq_case(g, it); else par_case(g, it); }
+    if (seq) { vh::Rng gb(E.seed * 104729 + 5); for (int it = 0; it < n; it++) seq_block_case(gb, it); }    // after the scalar cases: their case numbers stay
     E.finish();
     MPI_Finalize();
     return 0;
